@@ -143,7 +143,8 @@ type P struct{ control.Paragraph }
 
 type EncIn struct {
 	Paras []In
-	Slice bool // one Encode call with a slice instead of one call per paragraph
+	Slice bool  // one Encode call with a slice instead of one call per paragraph
+	Calls []int // if set: sizes of consecutive Encode calls; 1 = a struct, -1 = a slice of one, n>1 = a slice of n paragraphs
 }
 
 func checkEnc(scen string, in EncIn) []*mc.Violation {
@@ -162,7 +163,25 @@ func checkEnc(scen string, in EncIn) []*mc.Violation {
 		list = append(list, P{p.para()})
 	}
 	if pn, msg := mc.Guard(func() {
-		if in.Slice {
+		if len(in.Calls) > 0 {
+			pos := 0
+			for _, c := range in.Calls {
+				switch {
+				case c == 1:
+					err = enc.Encode(&list[pos])
+					pos++
+				case c == -1:
+					err = enc.Encode(list[pos : pos+1])
+					pos++
+				default:
+					err = enc.Encode(list[pos : pos+c])
+					pos += c
+				}
+				if err != nil {
+					break
+				}
+			}
+		} else if in.Slice {
 			err = enc.Encode(list)
 		} else {
 			for i := range list {
@@ -215,8 +234,8 @@ func lineValues(maxLines int) []string {
 	var out []string
 	seqs := gen.AllStrings(sym, maxLines)
 	for _, s := range seqs {
-		if len(s) == 0 || s[0] == '1' || s[0] == '2' || s[0] == '4' {
-			continue // first line must be non-empty and not indented to be representable at all
+		if len(s) == 0 || s[0] == '1' {
+			continue // the first line must be non-empty to be representable (see the known finding W3); it may be indented
 		}
 		var ls []string
 		for _, c := range s {
@@ -229,7 +248,7 @@ func lineValues(maxLines int) []string {
 }
 
 func Run(r *mc.Run) {
-	r.Rule = "all values that are sequences of 1..4/5 lines over {a, empty, blank-indented, 'b c', tab-indented, '#c', 'k: v'} with a representable first line, with and without a trailing newline; all ordered pairs of a 60-value subset as two-field paragraphs; every paragraph the reader itself returns on the C07 base documents; encoder call sequences of 1..3 paragraphs over 7 representative paragraphs (and one slice call). Non-trivial = value has more than one line; distinct by construction"
+	r.Rule = "all values that are sequences of 1..4/5 lines over {a, empty, blank-indented, 'b c', tab-indented, '#c', 'k: v'} with a non-empty (possibly indented) first line, with and without a trailing newline; all ordered pairs of a 60-value subset as two-field paragraphs; every paragraph the reader itself returns on the C07 base documents; encoder call sequences of 1..3 paragraphs over 7 representative paragraphs (and one slice call). Non-trivial = value has more than one line; distinct by construction"
 	r.Assume = []string{"values are sequences of text lines without trailing blanks; the first line is non-empty and not indented (otherwise the value is not representable: the reader trims the first line and treats an empty first line as 'starts on the next line')"}
 
 	vals := lineValues(r.Pick(4, 5))
@@ -339,15 +358,47 @@ func Run(r *mc.Run) {
 	}
 	var seqs []EncIn
 	for _, a := range reps {
-		seqs = append(seqs, EncIn{[]In{a}, false}, EncIn{[]In{a}, true})
+		seqs = append(seqs, EncIn{Paras: []In{a}}, EncIn{Paras: []In{a}, Slice: true})
 		for _, b := range reps {
-			seqs = append(seqs, EncIn{[]In{a, b}, false}, EncIn{[]In{a, b}, true})
+			seqs = append(seqs, EncIn{Paras: []In{a, b}}, EncIn{Paras: []In{a, b}, Slice: true})
 			for _, c := range reps {
-				seqs = append(seqs, EncIn{[]In{a, b, c}, false}, EncIn{[]In{a, b, c}, true})
+				seqs = append(seqs, EncIn{Paras: []In{a, b, c}}, EncIn{Paras: []In{a, b, c}, Slice: true})
 			}
 		}
 	}
-	r.Scenario("encoder-sequences", map[string]interface{}{"representative_paragraphs": len(reps), "max_calls": 3, "sequences": len(seqs)}, 16, func(sh int, st *mc.Stats) bool {
+	// every way of splitting 2..4 paragraphs into consecutive Encode calls, each call a struct or a slice
+	var splits [][]int
+	var rec func(left int, cur []int)
+	rec = func(left int, cur []int) {
+		if left == 0 {
+			splits = append(splits, append([]int{}, cur...))
+			return
+		}
+		rec(left-1, append(cur, 1))
+		rec(left-1, append(cur, -1))
+		for n := 2; n <= left; n++ {
+			rec(left-n, append(cur, n))
+		}
+	}
+	for total := 2; total <= 4; total++ {
+		rec(total, nil)
+	}
+	for _, sp := range splits {
+		n := 0
+		for _, c := range sp {
+			if c < 0 {
+				n++
+			} else {
+				n += c
+			}
+		}
+		var ps []In
+		for i := 0; i < n; i++ {
+			ps = append(ps, reps[(i*3+len(sp))%len(reps)])
+		}
+		seqs = append(seqs, EncIn{Paras: ps, Calls: sp})
+	}
+	r.Scenario("encoder-sequences", map[string]interface{}{"representative_paragraphs": len(reps), "max_calls": 3, "mixed_struct_and_slice_call_splits": len(splits), "sequences": len(seqs)}, 16, func(sh int, st *mc.Stats) bool {
 		for i := sh; i < len(seqs); i += 16 {
 			st.Evals++
 			st.Traces++
